@@ -8,110 +8,12 @@ import (
 
 	"github.com/avos-io/goat/gen/testproto"
 	"google.golang.org/grpc"
-	"google.golang.org/grpc/codes"
-	"google.golang.org/grpc/status"
 )
 
-// zzStreamRec records what a streaming handler observed.
-type zzStreamRec struct {
-	mu       vfMutex
-	started  int
-	returned int
-	recvd    []int32
-	sawEOF   bool
-	recvErr  error
-	sendErrs int
-	ctxDone  bool
-	ctx      context.Context
-}
 
-// handler programs (hp): 0 echo until EOF; 1 burst of m messages then return nil (reads nothing);
-// 2 reply after EOF (one reply per received message); 3 return nil after the first message (before EOF)
-func zzStreamHandler(rec *zzStreamRec, hp int, m int, k int32, retErr error) grpc.StreamHandler {
-	return func(srv any, stream grpc.ServerStream) error {
-		rec.mu.vfLock()
-		rec.started++
-		rec.ctx = stream.Context()
-		rec.mu.vfUnlock()
-		defer func() {
-			rec.mu.vfLock()
-			rec.returned++
-			rec.mu.vfUnlock()
-		}()
-		switch hp {
-		case 0:
-			for {
-				in := new(testproto.Msg)
-				err := stream.RecvMsg(in)
-				if err == io.EOF {
-					rec.sawEOF = true
-					return retErr
-				}
-				if err != nil {
-					rec.recvErr = err
-					return err
-				}
-				rec.recvd = append(rec.recvd, in.Value)
-				if err := stream.SendMsg(&testproto.Msg{Value: in.Value ^ k}); err != nil {
-					rec.sendErrs++
-					return err
-				}
-			}
-		case 1:
-			for i := 0; i < m; i++ {
-				if err := stream.SendMsg(&testproto.Msg{Value: int32(i+1) ^ k}); err != nil {
-					rec.sendErrs++
-					return err
-				}
-			}
-			return retErr
-		case 2:
-			for {
-				in := new(testproto.Msg)
-				err := stream.RecvMsg(in)
-				if err == io.EOF {
-					rec.sawEOF = true
-					break
-				}
-				if err != nil {
-					rec.recvErr = err
-					return err
-				}
-				rec.recvd = append(rec.recvd, in.Value)
-			}
-			for _, v := range rec.recvd {
-				if err := stream.SendMsg(&testproto.Msg{Value: v ^ k}); err != nil {
-					rec.sendErrs++
-					return err
-				}
-			}
-			return retErr
-		default:
-			in := new(testproto.Msg)
-			err := stream.RecvMsg(in)
-			if err == io.EOF {
-				rec.sawEOF = true
-				return retErr
-			}
-			if err != nil {
-				rec.recvErr = err
-				return err
-			}
-			rec.recvd = append(rec.recvd, in.Value)
-			return retErr
-		}
-	}
-}
 
 func zzIsEOF(err error) bool { return err == io.EOF }
 
-func zzCode(err error) codes.Code {
-	if err == nil {
-		return codes.OK
-	}
-	st, _ := status.FromError(err)
-	return st.Code()
-}
 
 // H_C02_stream: one bidirectional stream between a real client and a real server.
 // cp (client program): 0 send-all, half-close, receive-all; 1 ping-pong then half-close;
